@@ -16,7 +16,7 @@ ap.add_argument("--only", default="")
 a = ap.parse_args()
 PY = "/venv/bin/python"
 SEEDS = a.seeds.split(",")
-names = sorted(d for d in os.listdir("/verif/seeded") if os.path.isfile("/verif/seeded/%s/patch.diff" % d))
+names = sorted(d for d in os.listdir("/verif/seeded") if os.path.isfile("/verif/seeded/%s/patch.diff" % d) and "superseded_by_fix" not in open("/verif/seeded/%s/meta.json" % d).read())
 if a.only:
     names = [s for s in names if s in a.only.split(",")]
 
